@@ -85,9 +85,10 @@ class Ctx:
         return c
 
     # -- solver ------------------------------------------------------------------------
-    def add(self, c):
-        self.solver.add(c)
-        self.pc_n += 1
+    def add(self, *cs):
+        for c in cs:
+            self.solver.add(c)
+            self.pc_n += 1
 
     def _check(self, *extra):
         t0 = time.time()
@@ -243,6 +244,18 @@ class Ctx:
         iv = int_view(r)
         if iv is not None:
             return z3.simplify(iv)
+        # dyadic-rational combination of integer terms: floor(n / L) in pure integer arithmetic
+        dens = []
+        _coef_dens(r, dens)
+        L = 1
+        for x in dens:
+            if x != 1:
+                from math import gcd
+                L = L * x // gcd(L, x)
+        if 1 < L <= (1 << 400):
+            iv = int_view(z3.simplify(r * z3.RealVal(L)))
+            if iv is not None:
+                return self.div(z3.simplify(iv), L)
         key = r.get_id()
         hit = self.floor_memo.get(key)
         if hit is not None:
